@@ -3,6 +3,7 @@ from ..lib import facts, mir, paths, absint, witness
 from ..lib.mir import is_call, unref, path_str
 from . import common_derive as cd
 
+EXHAUSTIVE = False  # contains a finite corpus of programs (witnesses / declarations)
 LEVEL = "other"
 EXPLANATION = (
     "'Compiles for all programs of a grammar' is decided per program by rustc. Static analysis contributes (a) the rules that "
